@@ -156,6 +156,8 @@ pub enum Placement {
     Single(usize, Fault),
     Sticky(usize),
     Eagain(usize, usize),
+    /// sparse random faults: (seed, per-mille per call)
+    Random(u64, u64),
 }
 
 impl Placement {
@@ -165,6 +167,7 @@ impl Placement {
             Placement::Single(s, f) => json!(["single", s, Dec { step: *s, fault: Some(f.clone()), ..Default::default() }.to_json()["fault"]]),
             Placement::Sticky(s) => json!(["sticky", s]),
             Placement::Eagain(i, k) => json!(["eagain", i, k]),
+            Placement::Random(s, p) => json!(["random", s, p]),
         }
     }
     pub fn from_json(v: &Value) -> Placement {
@@ -175,6 +178,7 @@ impl Placement {
             }
             Some("sticky") => Placement::Sticky(v[1].as_u64().unwrap_or(0) as usize),
             Some("eagain") => Placement::Eagain(v[1].as_u64().unwrap_or(0) as usize, v[2].as_u64().unwrap_or(1) as usize),
+            Some("random") => Placement::Random(v[1].as_u64().unwrap_or(0), v[2].as_u64().unwrap_or(20)),
             _ => Placement::None,
         }
     }
@@ -185,6 +189,9 @@ impl Placement {
             Placement::Single(s, f) => p.script.push(Dec { step: *s, fault: Some(f.clone()), ..Default::default() }),
             Placement::Sticky(s) => p.sticky = Some((*s, libc::EMFILE)),
             Placement::Eagain(i, k) => p.eagain = Some((*i, *k)),
+            Placement::Random(seed, pm) => {
+                p.seeded = Some(crate::sup::Seeded { seed: *seed, p_switch: 0, p_attack: 0, p_fault: *pm, max_attacks: 0, pct_depth: 0 })
+            }
         }
         p
     }
@@ -251,6 +258,9 @@ impl Hooks for Snap {
 }
 
 fn strip_ids(p: &str) -> String {
+    // a procfs handle that fell back from a private mount to the host's /proc
+    // (a deliberate tolerance under faults) shows the same object below /proc
+    let p = p.strip_prefix("/proc/").map(|r| format!("/{r}")).unwrap_or_else(|| p.to_string());
     // pids / tids differ between universes: numeric components become N
     p.split('/').map(|c| if !c.is_empty() && c.len() >= 3 && c.bytes().all(|b| b.is_ascii_digit()) { "N" } else { c }).collect::<Vec<_>>().join("/")
 }
@@ -282,7 +292,10 @@ pub fn check_run(case: &Case, out: &RunOut, tree: &[String], base: Option<&(Stri
         }
     };
     let target = case.jobs[0].len() - 1;
-    if last.idx != target {
+    if matches!(last.outcome, Outcome::Harness(-2)) {
+        return v; // set-up failed under random faults: the target had nothing to work on
+    }
+    if last.idx != target && out.records.len() < case.jobs[0].len() {
         v.push(("no-result".to_string(), format!("target operation did not return (last finished op {})", last.idx)));
     }
     for r in &out.records {
@@ -377,7 +390,15 @@ pub fn plan_enum(tier: &str, seed: u64, probe: &Stats) -> Vec<Batch> {
         let pls = p["placements"].as_array().cloned().unwrap_or_default();
         // quick: thin out the fresh (one process per run) enumerations
         let stride = if tier == "thorough" { 1 } else if fresh { 6 } else { 1 };
-        let sel: Vec<Value> = pls.iter().enumerate().filter(|(i, _)| (i + sc as usize) % stride == 0).map(|(_, x)| x.clone()).collect();
+        let mut sel: Vec<Value> = pls.iter().enumerate().filter(|(i, _)| (i + sc as usize) % stride == 0).map(|(_, x)| x.clone()).collect();
+        // sampled multi-fault sequences: sparse random faults over the whole scenario
+        if !fresh {
+            let nrand = if tier == "thorough" { 400 } else { 40 };
+            for k in 0..nrand {
+                let rs = crate::rng::derive(seed, "C10-random", sc * 10_000 + k);
+                sel.push(Placement::Random(rs, [20u64, 50, 100, 200][(k % 4) as usize]).to_json());
+            }
+        }
         let chunk = if fresh { 40 } else { 400 };
         for (ci, ch) in sel.chunks(chunk).enumerate() {
             v.push(Batch {
